@@ -148,3 +148,14 @@ Theorem C03_from_chars_valid : forall cs,
       exists n, valid_rel n /\ w = if f then wire_abs n else wire_rel n).
 Proof. exact from_chars_valid. Qed.
 Print Assumptions C03_from_chars_valid.
+
+(* the literals at the message / zone-file name sites agree with the limits *)
+Theorem C03_message_zonefile_limits : forall s c : nat,
+  (exceeds parse_ref_phase1_ge s parse_ref_phase1_lim = false <-> (s + 1 <= name_max)%nat) /\
+  (exceeds parse_ref_phase2_ge s parse_ref_phase2_lim = false <-> (s + 1 <= name_max)%nat) /\
+  (exceeds name_parse_ge s name_parse_lim = false <-> (s <= name_max)%nat) /\
+  (exceeds zf_label_fast_ge (1 + c) (1 + zf_label_latest_add) = false <-> (c <= label_max)%nat) /\
+  (exceeds zf_label_slow_ge (1 + c) (1 + zf_label_latest_add) = false <-> (c <= label_max)%nat) /\
+  (exceeds zf_name_ge s zf_name_lim = false <-> (s <= check_rel_lim)%nat).
+Proof. exact message_zonefile_limits. Qed.
+Print Assumptions C03_message_zonefile_limits.
